@@ -496,6 +496,7 @@ func execRace(t *testing.T, sc *ConcScenario, choose chooser) *execResult {
 		time.Sleep(50 * time.Millisecond)
 		res.aborted = ""
 		res.outcome = "aborted:" + s.aborted
+		res.incomplete = s.aborted
 	}
 	if s.aborted == "" {
 		join.Wait()
